@@ -91,7 +91,9 @@ def canon(abi, name):
 CTX_SHAPES = ["plain-leaf", "syscall-only", "calls", "no-function",
               "calls-in-other-block", "leaf-gets-a-call-in-an-earlier-run",
               "no-function-behind-a-calling-function",
-              "leaf-gets-a-call-then-a-context-without-it"]
+              "leaf-gets-a-call-then-a-context-without-it",
+              "leaf-gets-a-call-from-a-context-that-saw-only-it",
+              "same-patch-object-in-a-calling-function-first"]
 
 
 def gen_case(rng, tier, index):
@@ -193,6 +195,14 @@ def run_ctx(c):
             blk(0, ["f"], [{"k": "nop"}, {"k": "ret"}])],
         "leaf-gets-a-call-then-a-context-without-it": [
             blk(0, ["f"], [{"k": "nop"}, {"k": "ret"}])],
+        "leaf-gets-a-call-from-a-context-that-saw-only-it": [
+            blk(0, ["f"], [{"k": "nop"}, {"k": "ret"}])],
+        # one Patch object, inserted into a function that calls (lower
+        # address, visited first) and into a leaf
+        "same-patch-object-in-a-calling-function-first": [
+            blk(5, ["h"], [{"k": "nop"}, {"k": "call", "t": "g"}]),
+            blk(6, ["h1"], [{"k": "ret"}]),
+            blk(0, ["f"], [{"k": "nop"}, {"k": "ret"}])],
         # code that belongs to no function, right behind a function that
         # calls
         "no-function-behind-a-calling-function": [
@@ -205,6 +215,9 @@ def run_ctx(c):
     funcs = [{"name": "g", "blocks": [9], "entries": [9]}]
     if shape == "no-function-behind-a-calling-function":
         funcs.append({"name": "h", "blocks": [5, 6], "entries": [5]})
+    elif shape == "same-patch-object-in-a-calling-function-first":
+        funcs.append({"name": "h", "blocks": [5, 6], "entries": [5]})
+        funcs.append({"name": "f", "blocks": fblocks, "entries": [0]})
     elif shape != "no-function":
         funcs.append({"name": "f", "blocks": fblocks, "entries": [0]})
     case = {"isa": "x64", "fmt": "elf", "pie": False, "externs": [],
@@ -250,8 +263,22 @@ def run_ctx(c):
                 ctx.insert_at(bu.blocks[0], 1, Patch.from_function(
                     lambda _ctx: "callq g\n", Constraints()))
             else:
+                if shape == "same-patch-object-in-a-calling-function-first":
+                    ctx.insert_at(bu.blocks[5], 0, patch)
                 ctx.insert_at(bu.blocks[0], 0, patch)
-    if shape in ("leaf-gets-a-call-in-an-earlier-run",
+    if shape == "leaf-gets-a-call-from-a-context-that-saw-only-it":
+        # the first context is given f alone (a leaf then, and recorded as
+        # one) and puts a call into it; the second is given every function,
+        # g among them, which the record has never seen
+        only = [f for f in gtirb_functions.Function.build_functions(m)
+                if bu.blocks[0] in f.get_all_blocks()]
+        ctx = RewritingContext(m, only)
+        ctx.insert_at(bu.blocks[0], 1, Patch.from_function(
+            lambda _ctx: "callq g\n", Constraints()))
+        ctx.apply()
+        pm = PassManager()
+        pm.add(Reg("patch"))
+    elif shape in ("leaf-gets-a-call-in-an-earlier-run",
                  "leaf-gets-a-call-then-a-context-without-it"):
         # first seen as a leaf: stays protected in later runs of the manager
         pm = PassManager()
@@ -276,7 +303,14 @@ def run_ctx(c):
     pm.run(bu.ir)
     bi = bu.intervals[0][0]
     ins = bytes(bi.contents)[off0:off0 + len(bi.contents) - before]
+    if shape == "same-patch-object-in-a-calling-function-first":
+        # two insertions: what stands in front of f's own two bytes
+        b0 = bu.blocks[0]
+        ins = bytes(bi.contents)[b0.offset:b0.offset + b0.size - 2]
     may_be_leaf = shape in ("plain-leaf", "syscall-only", "no-function",
+                            "leaf-gets-a-call-from-a-context-that-saw-"
+                            "only-it",
+                            "same-patch-object-in-a-calling-function-first",
                             "leaf-gets-a-call-in-an-earlier-run",
                             "leaf-gets-a-call-then-a-context-without-it",
                             "no-function-behind-a-calling-function")
